@@ -157,11 +157,15 @@ class SymExec:
             return
         if k == "use":
             sp = op_place(rv["op"])
-            if sp is not None and not sp.get("p") and sp["l"] in self.refs and not dst.get("p"):
-                self.refs[dst["l"]] = self.refs[sp["l"]]
-            if sp is not None and not sp.get("p") and sp["l"] in self.lrefs and not dst.get("p"):
-                self.lrefs[dst["l"]] = self.lrefs[sp["l"]]
+            src_ref = self.refs.get(sp["l"]) if sp is not None and not sp.get("p") else None
+            src_lref = self.lrefs.get(sp["l"]) if sp is not None and not sp.get("p") else None
             self.write(dst, self.op(rv["op"]))
+            if not dst.get("p"):
+                # a moved / copied reference still points to the same place
+                if src_ref is not None:
+                    self.refs[dst["l"]] = src_ref
+                if src_lref is not None:
+                    self.lrefs[dst["l"]] = src_lref
             return
         if k == "aggregate":
             ops = tuple(self.op(o) for o in rv["ops"])
